@@ -953,8 +953,8 @@ class ExprMixin:
             if t[1] in ("==", "!=") and is_const(t[3]):
                 # the same term is known to equal a different constant
                 for f, v in st.facts.items():
-                    if v is True and isinstance(f, tuple) and len(f) == 4 and f[0] == "cmp" and f[1] == "==" and f[2] == t[2] and is_const(f[3]) \
-                            and f[3] != t[3] and type(f[3][1]) is type(t[3][1]):
+                    if isinstance(f, tuple) and len(f) == 4 and f[0] == "cmp" and ((f[1] == "==" and v is True) or (f[1] == "!=" and v is False)) \
+                            and f[2] == t[2] and is_const(f[3]) and f[3] != t[3] and type(f[3][1]) is type(t[3][1]):
                         return t[1] == "!="
             return None
         key = ("truthy", t)
